@@ -902,18 +902,9 @@ pub fn decide(cond: T) -> bool {
             Some(false) => {}
             None => {}
         }
-        if let Some(d) = c.split_depth {
-            if c.trail.len() >= d && !remaining.is_empty() {
-                // do not go deeper: hand both sides to workers
-                let mut p: Vec<Entry> = c.trail.iter().map(|e| e.frozen()).collect();
-                p.push(Entry { taken: v as u32, remaining: vec![], kind: Kind::Decide, val: None });
-                c.deferred_prefixes.push(p.clone());
-                p.pop();
-                p.push(Entry { taken: (!v) as u32, remaining: vec![], kind: Kind::Decide, val: None });
-                c.deferred_prefixes.push(p);
-                return Act::Defer;
-            }
-        }
+        // work is only handed to other threads at `choice` points of the harness, never here: unwinding out of a
+        // comparison that runs inside a std collection operation (BTreeMap::split_off, sort, ...) can leave that
+        // collection in a state whose destructor panics, which would abort the process
         c.trail.push(Entry { taken: v as u32, remaining, kind: Kind::Decide, val: None });
         c.pos += 1;
         c.assert_term(side);
